@@ -412,7 +412,7 @@ func cmdCheck(args []string) int {
 			continue
 		}
 		if strings.HasPrefix(s, "havoc:") {
-			assumptions = append(assumptions, "unmodelled external (assumed to terminate, not to panic, results arbitrary): "+strings.TrimPrefix(s, "havoc:"))
+			assumptions = append(assumptions, "unmodelled external (assumed to terminate and not to panic; results arbitrary; it may rewrite the objects its arguments designate directly - pointee fields, slice elements, the pointee of a pointer held in an interface - and every ghost abstraction, but objects further down are assumed unchanged: A-havoc-depth): "+strings.TrimPrefix(s, "havoc:"))
 			continue
 		}
 		if sp := eng.specs.Funcs[s]; sp != nil {
